@@ -11,6 +11,7 @@
 //	end
 //	model <witness>            (forced schedules only: the model's trace on the Lean witness schedule)
 //	wconf b=<batch> <rs.o|w.o.v|cm|d.o ...>   (the writer goroutine's events: must be a run of the model's writer)
+//	pconf p=<id> <ec.p.o|hk.p|sn.o|sd.o|er.p.o ...>   (one producer's own events: must be a run of the model's Enqueue)
 //
 // Answers: `ok` while the predicate holds, `reject <why>` from the first offending event on,
 // `accept`/`reject <why>` for `end`.  With --replay only the cfg line is an input; the scenario it
@@ -178,6 +179,7 @@ type world struct {
 	c      cfg
 	mu     sync.Mutex
 	ev     []string
+	plog   map[int][]string // per producer: its own events (ec, hk, its flag operations, er), for the pconf line
 	frozen bool
 	bw     *kvstore.BatchedWriter
 	base   kvstore.KVStore
@@ -205,6 +207,28 @@ func (w *world) recLocked(kind string, args ...int) {
 		sb.WriteString(strconv.Itoa(a))
 	}
 	w.ev = append(w.ev, sb.String())
+	switch kind {
+	case "ec", "hk", "er":
+		if w.plog == nil {
+			w.plog = map[int][]string{}
+		}
+		w.plog[args[0]] = append(w.plog[args[0]], strings.ReplaceAll(sb.String(), " ", "."))
+	}
+}
+
+// recFlagLocked records a flag operation (sn / sd) and attributes it to the producer whose Enqueue issued it.
+func (w *world) recFlagLocked(kind string, o int) {
+	w.recLocked(kind, o)
+	if w.frozen {
+		return
+	}
+	if v, ok := registry.Load(goid()); ok {
+		if w.plog == nil {
+			w.plog = map[int][]string{}
+		}
+		p := v.(whoami).p
+		w.plog[p] = append(w.plog[p], kind+"."+strconv.Itoa(o))
+	}
 }
 
 // recStoreLocked records what the store holds for object id.
@@ -298,10 +322,10 @@ func (o *obj) BatchWriteScheduled() bool {
 	o.w.mu.Lock()
 	already := o.flag
 	if already {
-		o.w.recLocked("sd", o.id)
+		o.w.recFlagLocked("sd", o.id)
 	} else {
 		o.flag = true
-		o.w.recLocked("sn", o.id)
+		o.w.recFlagLocked("sn", o.id)
 	}
 	o.w.mu.Unlock()
 	if o.w.cas != nil {
@@ -575,7 +599,27 @@ const stressBound = 6 * time.Second
 const raceBound = 3 * time.Second
 
 func run(c cfg) []string {
+	ev, _ := run2(c)
+
+	return ev
+}
+
+// run2 also returns the per-producer logs.
+func run2(c cfg) ([]string, map[int][]string) {
 	w := newWorld(c)
+	ev := runIn(w)
+	w.mu.Lock()
+	defer w.mu.Unlock()
+	plog := make(map[int][]string, len(w.plog))
+	for p, l := range w.plog {
+		plog[p] = append([]string(nil), l...)
+	}
+
+	return ev, plog
+}
+
+func runIn(w *world) []string {
+	c := w.c
 	switch c.kind {
 	case "stop-after-first":
 		// no hook: Enqueue(o0) returns, Stop immediately afterwards
@@ -1043,8 +1087,9 @@ func projections(lines []string, producers, stoppers int) string {
 var failCount = map[string]int{}
 
 type result struct {
-	c  cfg
-	ev []string
+	c    cfg
+	ev   []string
+	plog map[int][]string
 }
 
 func emit(r *hx.Run, sub uint64, res result) (failed bool) {
@@ -1082,6 +1127,16 @@ func emit(r *hx.Run, sub uint64, res result) (failed bool) {
 		}
 	}
 	r.Line(strings.TrimSpace(fmt.Sprintf("wconf b=%d %s", res.c.b, strings.Join(wev, " "))), "conforms")
+	// producer conformance: each producer's own events (its calls, yield points, flag operations, returns); the Lean
+	// driver drives the model's Enqueue (stepProd) with them
+	pids := make([]int, 0, len(res.plog))
+	for p := range res.plog {
+		pids = append(pids, p)
+	}
+	sort.Ints(pids)
+	for _, p := range pids {
+		r.Line(fmt.Sprintf("pconf p=%d %s", p, strings.Join(res.plog[p], " ")), "conforms")
+	}
 	r.Count("kind:" + res.c.kind)
 	if res.c.uq == 1 {
 		r.Count("q:unbuffered")
@@ -1210,7 +1265,8 @@ func runBatch(r *hx.Run, cs []cfg, par int) {
 		go func(i int, c cfg) {
 			defer wg.Done()
 			defer func() { <-sem }()
-			res[i] = result{c, run(c)}
+			ev, plog := run2(c)
+			res[i] = result{c, ev, plog}
 			ran[i] = true
 			if _, end := oracle(res[i].ev); end != "" && !windowRace(res[i].ev) {
 				unexplained.Add(1)
@@ -1245,9 +1301,9 @@ func shrink(c cfg, want string) (result, bool) {
 	best, found := result{c: c}, false
 	try := func(cand cfg) bool {
 		for i := 0; i < 20 && time.Now().Before(deadline); i++ {
-			ev := run(cand)
+			ev, plog := run2(cand)
 			if _, end := oracle(ev); end == want {
-				best, found = result{cand, ev}, true
+				best, found = result{cand, ev, plog}, true
 
 				return true
 			}
@@ -1332,7 +1388,8 @@ func main() {
 			if c, ok := parseCfg(l); ok {
 				var res result
 				for i := 0; i < 300; i++ {
-					res = result{c, run(c)}
+					ev, plog := run2(c)
+					res = result{c, ev, plog}
 					if _, end := oracle(res.ev); end != "" {
 						break
 					}
